@@ -278,6 +278,17 @@ type isErr struct{ target error }
 func (e isErr) Error() string        { return "claims-to-be(" + e.target.Error() + ")" }
 func (e isErr) Is(target error) bool { return target == e.target }
 
+// ptrErr has pointer receivers that tolerate a nil receiver: a nil *ptrErr inside an error interface is a non-nil error
+type ptrErr struct{ target error }
+
+func (e *ptrErr) Error() string { return "pointer-error" }
+func (e *ptrErr) Is(target error) bool {
+	if e == nil {
+		return target == psatoken.ErrWrongSyntax
+	}
+	return target == e.target
+}
+
 var errUnrelated = errors.New("unrelated")
 
 type leafDef struct {
@@ -304,6 +315,9 @@ var c13Leaves = []leafDef{
 	{"unrelated", func() error { return errUnrelated }, false},
 	{"is-claims-missing-optional", func() error { return isErr{psatoken.ErrMissingOptional} }, true},
 	{"is-claims-wrong-syntax", func() error { return isErr{psatoken.ErrWrongSyntax} }, false},
+	{"nil-pointer-in-error-interface-classed-wrong-syntax", func() error { return (*ptrErr)(nil) }, false},
+	{"pointer-error-claims-not-in-profile", func() error { return &ptrErr{psatoken.ErrNotInProfile} }, true},
+	{"pointer-error-claims-mandatory", func() error { return &ptrErr{psatoken.ErrMissingMandatory} }, false},
 }
 
 type wrapDef struct {
@@ -318,6 +332,7 @@ var c13Wraps = []wrapDef{
 	{"join(unrelated,e)", func(e error) error { return errors.Join(errUnrelated, e) }, true},
 	{"join(e,mandatory)", func(e error) error { return errors.Join(e, psatoken.ErrMissingMandatory) }, true},
 	{"custom-unwrap", func(e error) error { return unwrapErr{e} }, true},
+	{"two-%w(unrelated,e)", func(e error) error { return fmt.Errorf("%w and %w", errUnrelated, e) }, true},
 }
 
 func c13Filter(c *choice.Ctx, st *Stats) {
